@@ -105,6 +105,31 @@ func ruleC17R1(w *World, r *Report) {
 			}
 			continue
 		}
+		if len(clause.List) != 1 && len(clause.Body) == 0 {
+			// `case *A, *B, *C:` with an empty body: the node types that have no children, listed together
+			for _, te := range clause.List {
+				tv := info.Types[te]
+				named := namedOf(tv.Type)
+				_, isPtr := tv.Type.(*types.Pointer)
+				if named == nil || !isPtr || cat.ByName[named.Obj().Name()] == nil || cat.ByName[named.Obj().Name()].Named != named {
+					r.bad(rule, "ast.walkInternal case "+exprText(w.Fset, te), cwhere, "case type is not a pointer to a node struct of package ast")
+					continue
+				}
+				ns := cat.ByName[named.Obj().Name()]
+				construct := "ast.walkInternal case *" + ns.Name
+				if seen[ns.Name] {
+					r.bad(rule, construct, cwhere, "duplicate case (the second one is dead)")
+					continue
+				}
+				seen[ns.Name] = true
+				if wantNames, _ := cat.nodeFields(ns); len(wantNames) > 0 {
+					r.bad(rule, construct, cwhere, fmt.Sprintf("pushes nothing (the type is listed in a shared clause without a body) but the struct has the node-typed fields [%s]", strings.Join(wantNames, ",")))
+				} else {
+					r.trivial(rule, construct, cwhere, "no node-typed fields, nothing pushed (shared clause)")
+				}
+			}
+			continue
+		}
 		if len(clause.List) != 1 {
 			r.undecided(rule, "ast.walkInternal case "+exprText(w.Fset, clause.List[0]), cwhere, "case lists several types; the pushes cannot be attributed to one struct")
 			continue
